@@ -19,6 +19,9 @@ well-formedness assumption, no cryptographic assumption):
 * `reject_of_mac_ne_*` : authenticator mismatch gives `Err` with the buffer unchanged;
 * `untampered_accepted_*` : re-export of the round trips of C01;
 * `stream_*`       : the same four facts for the secretstream `pull` (re-export of C03).
+* `body_tamper_*`, `key_nonce_flip_*`, `accept_imp_collision_*_boxPrims` : the cryptographic residue made
+                   explicit — accepting a modified body / another key or nonce IS a collision of the
+                   one-time authenticator (section "the cryptographic residue").
 
 `expectedTag P key nonce c = P.mac ((P.stream key nonce (32 + c.length)).take 32) c` and
 `cryptXor P key nonce c = xorBytes c ((P.stream key nonce (32 + c.length)).drop 32)` are
@@ -666,6 +669,248 @@ theorem stream_macInput_injective (ad block c ad' block' c' : Bytes)
 
 end Stream
 
+/-! ## the cryptographic residue, made explicit
+
+Tampering with the *body* of a ciphertext (or with key / nonce) cannot be rejected by arithmetic alone:
+whether the forged input is accepted is exactly whether the one-time authenticator collides.  The
+theorems below state this residue instead of leaving it silent: acceptance of two inputs under the same
+key and nonce **is** a collision `mac K c = mac K c'` under one one-time key `K` — for every
+instantiation `P` when the two bodies have the same length (same `K` by construction), and for the
+driver's primitives (`Model.boxPrims`: XSalsa20, RFC 8439 Poly1305) for bodies of ANY two lengths
+(truncation / extension), because there `K` is the 32-byte key stream whatever the length. -/
+
+section Residue
+
+/-- **Body tampering ⇒ collision.**  If `crypto_secretbox_open_detached` accepts the same tag with two
+ciphertexts of the same length under one key and nonce, the two ciphertexts collide under the one-time
+authenticator key.  (Hence a modified ciphertext `c' ≠ c` is accepted only on a forgery of the MAC.) -/
+theorem body_tamper_accept_imp_collision (P : Prims) (buf buf' tag c c' n k : Bytes)
+    (hl : c'.length = c.length)
+    (h : (openDetached P buf tag c n k).res = .ok ())
+    (h' : (openDetached P buf' tag c' n k).res = .ok ()) :
+    P.mac ((P.stream k n (32 + c.length)).take 32) c
+      = P.mac ((P.stream k n (32 + c.length)).take 32) c' := by
+  obtain ⟨-, h1⟩ := (openDetached_ok_iff P buf tag c n k).1 h
+  obtain ⟨-, h2⟩ := (openDetached_ok_iff P buf' tag c' n k).1 h'
+  rw [hl] at h2
+  rw [h1, h2]
+
+/-- … and conversely: once `(tag, c)` is accepted, a same-length `c'` (buffer large enough) is accepted
+**iff** it collides with `c` -/
+theorem body_tamper_accepted_iff_collision (P : Prims) (buf buf' tag c c' n k : Bytes)
+    (hl : c'.length = c.length) (hb : c'.length ≤ buf'.length)
+    (h : (openDetached P buf tag c n k).res = .ok ()) :
+    (openDetached P buf' tag c' n k).res = .ok () ↔
+      P.mac ((P.stream k n (32 + c.length)).take 32) c'
+        = P.mac ((P.stream k n (32 + c.length)).take 32) c := by
+  obtain ⟨-, h1⟩ := (openDetached_ok_iff P buf tag c n k).1 h
+  rw [openDetached_ok_iff, hl, h1]
+  constructor
+  · exact fun h => h.2
+  · exact fun h => ⟨by omega, h⟩
+
+/-- the rejection form: a modified body that does not collide is rejected, buffer untouched -/
+theorem body_tamper_rejected_of_no_collision (P : Prims) (buf buf' tag c c' n k : Bytes)
+    (hl : c'.length = c.length) (hb : c'.length ≤ buf'.length)
+    (h : (openDetached P buf tag c n k).res = .ok ())
+    (hnc : P.mac ((P.stream k n (32 + c.length)).take 32) c'
+        ≠ P.mac ((P.stream k n (32 + c.length)).take 32) c) :
+    openDetached P buf' tag c' n k = ⟨.err, buf'⟩ := by
+  obtain ⟨-, h1⟩ := (openDetached_ok_iff P buf tag c n k).1 h
+  apply reject_of_mac_ne_openDetached P buf' tag c' n k hb
+  rw [hl, ← h1]
+  exact hnc
+
+/-- the same for `crypto_secretbox_open_easy`: two boxes of the same length with the same first 16 bytes -/
+theorem body_tamper_accept_imp_collision_openEasy (P : Prims) (buf buf' ct ct' n k : Bytes)
+    (hl : ct'.length = ct.length) (htag : ct'.take 16 = ct.take 16)
+    (h : (openEasy P buf ct n k).res = .ok ())
+    (h' : (openEasy P buf' ct' n k).res = .ok ()) :
+    P.mac ((P.stream k n (32 + (ct.length - 16))).take 32) (ct.drop 16)
+      = P.mac ((P.stream k n (32 + (ct.length - 16))).take 32) (ct'.drop 16) := by
+  obtain ⟨-, -, h1⟩ := (openEasy_ok_iff P buf ct n k).1 h
+  obtain ⟨-, -, h2⟩ := (openEasy_ok_iff P buf' ct' n k).1 h'
+  rw [hl, htag] at h2
+  rw [h1, h2]
+
+/-- the same for `crypto_box_open_easy` -/
+theorem body_tamper_accept_imp_collision_boxOpenEasy (P : Prims) (buf buf' ct ct' n pk sk : Bytes)
+    (hl : ct'.length = ct.length) (htag : ct'.take 16 = ct.take 16)
+    (h : (boxOpenEasy P buf ct n pk sk).res = .ok ())
+    (h' : (boxOpenEasy P buf' ct' n pk sk).res = .ok ()) :
+    P.mac ((P.stream (beforenm P pk sk) n (32 + (ct.length - 16))).take 32) (ct.drop 16)
+      = P.mac ((P.stream (beforenm P pk sk) n (32 + (ct.length - 16))).take 32) (ct'.drop 16) :=
+  body_tamper_accept_imp_collision_openEasy P buf buf' ct ct' n _ hl htag h h'
+
+/-- the same for `crypto_box_seal_open`: two sealed boxes of the same length with the same ephemeral key
+(bytes 0…32) and tag (bytes 32…48) -/
+theorem body_tamper_accept_imp_collision_sealOpen (P : Prims) (buf buf' ct ct' rpk rsk : Bytes)
+    (hl : ct'.length = ct.length) (hepk : ct'.take 32 = ct.take 32)
+    (htag : (ct'.drop 32).take 16 = (ct.drop 32).take 16)
+    (h : (sealOpen P buf ct rpk rsk).res = .ok ())
+    (h' : (sealOpen P buf' ct' rpk rsk).res = .ok ()) :
+    P.mac ((P.stream (beforenm P (ct.take 32) rsk) (sealNonce P (ct.take 32) rpk)
+              (32 + (ct.length - 48))).take 32) (ct.drop 48)
+      = P.mac ((P.stream (beforenm P (ct.take 32) rsk) (sealNonce P (ct.take 32) rpk)
+              (32 + (ct.length - 48))).take 32) (ct'.drop 48) := by
+  obtain ⟨-, -, h1⟩ := (sealOpen_ok_iff P buf ct rpk rsk).1 h
+  obtain ⟨-, -, h2⟩ := (sealOpen_ok_iff P buf' ct' rpk rsk).1 h'
+  rw [hl, hepk, htag] at h2
+  rw [h1, h2]
+
+/-- the same for `DryocSecretBox::decrypt` -/
+theorem body_tamper_accept_imp_collision_objDecrypt (P : Prims) (b b' : Box) (n k m m' : Bytes)
+    (hl : b'.data.length = b.data.length) (htag : b'.tag = b.tag)
+    (h : objDecrypt P b n k = .ok m) (h' : objDecrypt P b' n k = .ok m') :
+    P.mac ((P.stream k n (32 + b.data.length)).take 32) b.data
+      = P.mac ((P.stream k n (32 + b.data.length)).take 32) b'.data := by
+  obtain ⟨h1, -⟩ := (objDecrypt_ok_iff P b n k m).1 h
+  obtain ⟨h2, -⟩ := (objDecrypt_ok_iff P b' n k m').1 h'
+  rw [hl, htag] at h2
+  rw [h1, h2]
+
+/-- **Key / nonce flips.**  If the same `(tag, c)` is accepted under `(k, n)` and under `(k', n')`, the two
+expected authenticators — computed under the two one-time keys — are equal (both are `tag`).  So opening
+under a wrong key or nonce succeeds only if the two one-time keys authenticate `c` identically. -/
+theorem key_nonce_flip_accept_imp_tag_eq (P : Prims) (buf buf' tag c n k n' k' : Bytes)
+    (h : (openDetached P buf tag c n k).res = .ok ())
+    (h' : (openDetached P buf' tag c n' k').res = .ok ()) :
+    P.mac ((P.stream k n (32 + c.length)).take 32) c
+      = P.mac ((P.stream k' n' (32 + c.length)).take 32) c := by
+  obtain ⟨-, h1⟩ := (openDetached_ok_iff P buf tag c n k).1 h
+  obtain ⟨-, h2⟩ := (openDetached_ok_iff P buf' tag c n' k').1 h'
+  rw [h1, h2]
+
+/-- rejection form: under another key / nonce whose expected tag differs, the accepted input is rejected -/
+theorem key_nonce_flip_rejected_of_tag_ne (P : Prims) (buf buf' tag c n k n' k' : Bytes)
+    (hb : c.length ≤ buf'.length)
+    (h : (openDetached P buf tag c n k).res = .ok ())
+    (hne : P.mac ((P.stream k' n' (32 + c.length)).take 32) c
+        ≠ P.mac ((P.stream k n (32 + c.length)).take 32) c) :
+    openDetached P buf' tag c n' k' = ⟨.err, buf'⟩ := by
+  obtain ⟨-, h1⟩ := (openDetached_ok_iff P buf tag c n k).1 h
+  apply reject_of_mac_ne_openDetached P buf' tag c n' k' hb
+  rw [← h1]
+  exact hne
+
+/-- the same for `crypto_secretbox_open_easy` -/
+theorem key_nonce_flip_accept_imp_tag_eq_openEasy (P : Prims) (buf buf' ct n k n' k' : Bytes)
+    (h : (openEasy P buf ct n k).res = .ok ())
+    (h' : (openEasy P buf' ct n' k').res = .ok ()) :
+    P.mac ((P.stream k n (32 + (ct.length - 16))).take 32) (ct.drop 16)
+      = P.mac ((P.stream k' n' (32 + (ct.length - 16))).take 32) (ct.drop 16) := by
+  obtain ⟨-, -, h1⟩ := (openEasy_ok_iff P buf ct n k).1 h
+  obtain ⟨-, -, h2⟩ := (openEasy_ok_iff P buf' ct n' k').1 h'
+  rw [h1, h2]
+
+/-! ### the driver's primitives: one one-time key for every length -/
+
+open DryocVerif.Model (boxPrims)
+open DryocVerif.Proofs
+
+/-- acceptance by `crypto_secretbox_open_detached` with the driver's primitives, every key and nonce: the
+tag is RFC 8439 Poly1305 of the ciphertext under the 32-byte XSalsa20 key stream — a key that does not
+depend on the ciphertext (in particular not on its length) -/
+theorem openDetached_ok_iff_boxPrims (buf tag c n k : Bytes) :
+    (openDetached boxPrims buf tag c n k).res = .ok () ↔
+      c.length ≤ buf.length ∧ Spec.Poly1305.mac (Spec.Salsa20.xsalsa20Stream k n 0 32) c = tag := by
+  rw [openDetached_ok_iff, ← expectedTag_def, SecretBoxExtra.expectedTag_boxPrims]
+
+theorem openEasy_ok_iff_boxPrims (buf ct n k : Bytes) :
+    (openEasy boxPrims buf ct n k).res = .ok () ↔
+      16 ≤ ct.length ∧ ct.length - 16 ≤ buf.length ∧
+      Spec.Poly1305.mac (Spec.Salsa20.xsalsa20Stream k n 0 32) (ct.drop 16) = ct.take 16 := by
+  rw [openEasy_ok_iff, ← SecretBoxExtra.expectedTag_boxPrims, expectedTag_def, List.length_drop]
+
+theorem sealOpen_ok_iff_boxPrims (buf ct rpk rsk : Bytes) :
+    (sealOpen boxPrims buf ct rpk rsk).res = .ok () ↔
+      48 ≤ ct.length ∧ buf.length = ct.length - 48 ∧
+      Spec.Poly1305.mac (Spec.Salsa20.xsalsa20Stream (Spec.NaCl.beforenm (ct.take 32) rsk)
+          (Spec.NaCl.sealNonce (ct.take 32) rpk) 0 32) (ct.drop 48) = (ct.drop 32).take 16 := by
+  rw [sealOpen_ok_iff]
+  have e := SecretBoxExtra.expectedTag_boxPrims (beforenm boxPrims (ct.take 32) rsk)
+    (sealNonce boxPrims (ct.take 32) rpk) (ct.drop 48)
+  rw [expectedTag_def, List.length_drop] at e
+  rw [e]
+  rfl
+
+/-- **Truncation / extension / any body change ⇒ Poly1305 collision under the SAME key.**  With the
+driver's primitives, if one tag is accepted with two ciphertexts `c`, `c'` of ANY lengths under one key
+and nonce, then `c` and `c'` collide under RFC 8439 Poly1305 with the same 32-byte one-time key. -/
+theorem accept_imp_collision_boxPrims (buf buf' tag c c' n k : Bytes)
+    (h : (openDetached boxPrims buf tag c n k).res = .ok ())
+    (h' : (openDetached boxPrims buf' tag c' n k).res = .ok ()) :
+    Spec.Poly1305.mac (Spec.Salsa20.xsalsa20Stream k n 0 32) c
+      = Spec.Poly1305.mac (Spec.Salsa20.xsalsa20Stream k n 0 32) c' := by
+  rw [((openDetached_ok_iff_boxPrims buf tag c n k).1 h).2,
+    ((openDetached_ok_iff_boxPrims buf' tag c' n k).1 h').2]
+
+/-- rejection form: any other body (any length) that does not collide is rejected, buffer untouched -/
+theorem body_change_rejected_of_no_collision_boxPrims (buf buf' tag c c' n k : Bytes)
+    (hb : c'.length ≤ buf'.length)
+    (h : (openDetached boxPrims buf tag c n k).res = .ok ())
+    (hnc : Spec.Poly1305.mac (Spec.Salsa20.xsalsa20Stream k n 0 32) c'
+        ≠ Spec.Poly1305.mac (Spec.Salsa20.xsalsa20Stream k n 0 32) c) :
+    openDetached boxPrims buf' tag c' n k = ⟨.err, buf'⟩ := by
+  apply reject_of_mac_ne_openDetached boxPrims buf' tag c' n k hb
+  rw [← expectedTag_def, SecretBoxExtra.expectedTag_boxPrims,
+    ← ((openDetached_ok_iff_boxPrims buf tag c n k).1 h).2]
+  exact hnc
+
+/-- the same for `crypto_secretbox_open_easy`: two boxes of any lengths with the same first 16 bytes -/
+theorem accept_imp_collision_openEasy_boxPrims (buf buf' ct ct' n k : Bytes)
+    (htag : ct'.take 16 = ct.take 16)
+    (h : (openEasy boxPrims buf ct n k).res = .ok ())
+    (h' : (openEasy boxPrims buf' ct' n k).res = .ok ()) :
+    Spec.Poly1305.mac (Spec.Salsa20.xsalsa20Stream k n 0 32) (ct.drop 16)
+      = Spec.Poly1305.mac (Spec.Salsa20.xsalsa20Stream k n 0 32) (ct'.drop 16) := by
+  rw [((openEasy_ok_iff_boxPrims buf ct n k).1 h).2.2,
+    ((openEasy_ok_iff_boxPrims buf' ct' n k).1 h').2.2, htag]
+
+/-- the same for `crypto_box_open_easy` -/
+theorem accept_imp_collision_boxOpenEasy_boxPrims (buf buf' ct ct' n pk sk : Bytes)
+    (htag : ct'.take 16 = ct.take 16)
+    (h : (boxOpenEasy boxPrims buf ct n pk sk).res = .ok ())
+    (h' : (boxOpenEasy boxPrims buf' ct' n pk sk).res = .ok ()) :
+    Spec.Poly1305.mac (Spec.Salsa20.xsalsa20Stream (Spec.NaCl.beforenm pk sk) n 0 32) (ct.drop 16)
+      = Spec.Poly1305.mac (Spec.Salsa20.xsalsa20Stream (Spec.NaCl.beforenm pk sk) n 0 32) (ct'.drop 16) :=
+  accept_imp_collision_openEasy_boxPrims buf buf' ct ct' n _ htag h h'
+
+/-- the same for `crypto_box_seal_open`: two sealed boxes of any lengths with the same ephemeral key and tag -/
+theorem accept_imp_collision_sealOpen_boxPrims (buf buf' ct ct' rpk rsk : Bytes)
+    (hepk : ct'.take 32 = ct.take 32) (htag : (ct'.drop 32).take 16 = (ct.drop 32).take 16)
+    (h : (sealOpen boxPrims buf ct rpk rsk).res = .ok ())
+    (h' : (sealOpen boxPrims buf' ct' rpk rsk).res = .ok ()) :
+    Spec.Poly1305.mac (Spec.Salsa20.xsalsa20Stream (Spec.NaCl.beforenm (ct.take 32) rsk)
+          (Spec.NaCl.sealNonce (ct.take 32) rpk) 0 32) (ct.drop 48)
+      = Spec.Poly1305.mac (Spec.Salsa20.xsalsa20Stream (Spec.NaCl.beforenm (ct.take 32) rsk)
+          (Spec.NaCl.sealNonce (ct.take 32) rpk) 0 32) (ct'.drop 48) := by
+  have h2 := ((sealOpen_ok_iff_boxPrims buf' ct' rpk rsk).1 h').2.2
+  rw [hepk, htag] at h2
+  rw [((sealOpen_ok_iff_boxPrims buf ct rpk rsk).1 h).2.2, h2]
+
+/-- key / nonce flip with the driver's primitives: the same `(tag, c)` accepted under `(k, n)` and
+`(k', n')` means RFC 8439 Poly1305 of `c` agrees under the two 32-byte XSalsa20 one-time keys -/
+theorem key_nonce_flip_accept_imp_tag_eq_boxPrims (buf buf' tag c n k n' k' : Bytes)
+    (h : (openDetached boxPrims buf tag c n k).res = .ok ())
+    (h' : (openDetached boxPrims buf' tag c n' k').res = .ok ()) :
+    Spec.Poly1305.mac (Spec.Salsa20.xsalsa20Stream k n 0 32) c
+      = Spec.Poly1305.mac (Spec.Salsa20.xsalsa20Stream k' n' 0 32) c := by
+  rw [((openDetached_ok_iff_boxPrims buf tag c n k).1 h).2,
+    ((openDetached_ok_iff_boxPrims buf' tag c n' k').1 h').2]
+
+/-- re-export of C01: the one-time key does not depend on the message length -/
+theorem boxPrims_mackey_indep (k n : Bytes) (l l' : Nat) :
+    (boxPrims.stream k n (32 + l)).take 32 = (boxPrims.stream k n (32 + l')).take 32 :=
+  C01.boxPrims_mackey_indep k n l l'
+
+/-- re-export of C01: prefix law of the key stream (24-byte nonce) -/
+theorem boxPrims_stream_prefix (k n : Bytes) (hn : 24 ≤ n.length) (l l' : Nat) (h : l ≤ l') :
+    (boxPrims.stream k n l').take l = boxPrims.stream k n l :=
+  C01.boxPrims_stream_prefix k n hn l l' h
+
+end Residue
+
 /-! ## non-vacuity (toy instance): an accepted ciphertext exists, and tampering its tag is rejected -/
 
 section NonVacuity
@@ -729,6 +974,124 @@ example : ∃ b m, objDecrypt toyPrims b toyNonce toyKey = .ok m ∧
     objDecrypt toyPrims { b with tag := List.replicate 16 0xff } toyNonce toyKey = .err :=
   ⟨⟨none, toyCt.take 16, toyCt.drop 16⟩, toyMsg, by decide,
     tag_tamper_rejected_objDecrypt toyPrims _ _ _ _ toyMsg (by decide) (by decide)⟩
+
+/-! ### witnesses that were missing -/
+
+/-- non-vacuity witness for `tag_tamper_rejected_boxOpenDetached` -/
+example : boxOpenDetached toyPrims (zeros 3) (List.replicate 16 0xff) (toyCt.drop 16) toyNonce toySpk toyRsk
+    = ⟨.err, zeros 3⟩ :=
+  tag_tamper_rejected_boxOpenDetached toyPrims _ (toyCt.take 16) _ _ _ _ _ (by decide) (by decide)
+
+/-- non-vacuity witness for `tag_tamper_rejected_boxOpenDetachedInplace` -/
+example : boxOpenDetachedInplace toyPrims (toyCt.drop 16) (List.replicate 16 0xff) toyNonce toySpk toyRsk
+    = ⟨.err, toyCt.drop 16⟩ :=
+  tag_tamper_rejected_boxOpenDetachedInplace toyPrims _ (toyCt.take 16) _ _ _ _ (by decide) (by decide)
+
+/-- non-vacuity witness for `tag_tamper_rejected_boxOpenEasyInplace` -/
+example : boxOpenEasyInplace toyPrims (List.replicate 16 0xff ++ toyCt.drop 16) toyNonce toySpk toyRsk
+    = ⟨.err, List.replicate 16 0xff ++ toyCt.drop 16⟩ :=
+  tag_tamper_rejected_boxOpenEasyInplace toyPrims toyCt _ _ _ _ (by decide) (by decide) (by decide)
+
+/-- non-vacuity witness for `tag_tamper_rejected_objBoxDecrypt` -/
+example : ∃ b m, objBoxDecrypt toyPrims b toyNonce toySpk toyRsk = .ok m ∧
+    objBoxDecrypt toyPrims { b with tag := List.replicate 16 0xff } toyNonce toySpk toyRsk = .err :=
+  ⟨⟨none, toyCt.take 16, toyCt.drop 16⟩, toyMsg, by decide,
+    tag_tamper_rejected_objBoxDecrypt toyPrims _ _ _ _ _ toyMsg (by decide) (by decide)⟩
+
+/-- non-vacuity witness for `tag_tamper_rejected_objUnseal`: a sealed object that unseals, then its tag replaced -/
+example : ∃ b, objSeal toyPrims toyMsg toyRpk toyEsk = .ok b ∧
+    objUnseal toyPrims b toyRpk toyRsk = .ok toyMsg ∧
+    objUnseal toyPrims { b with tag := List.replicate 16 0xff } toyRpk toyRsk = .err :=
+  ⟨_, rfl, by decide,
+    tag_tamper_rejected_objUnseal toyPrims _ _ _ _ toyMsg (by decide) (by decide)⟩
+
+/-- non-vacuity witness for `wrong_size_rejected_sealOpen`: a genuine sealed box, message buffer one byte too long -/
+example : ∃ ct, boxSeal toyPrims (zeros 51) toyMsg toyRpk toyEsk = .ok ct ∧
+    sealOpen toyPrims (zeros 4) ct toyRpk toyRsk = ⟨.err, zeros 4⟩ :=
+  ⟨_, rfl, wrong_size_rejected_sealOpen toyPrims _ _ _ _ (by decide)⟩
+
+/-- non-vacuity witness for `stream_tag_tamper_rejected`: a pushed stream message is pulled with `Ok 1`;
+with its last 16 bytes replaced it is rejected -/
+example : ∃ c s', Model.SecretStream.push C03.toyP C03.toyS 18 [0x41] [0x42] 0 = .ok (c, s') ∧
+    (Model.SecretStream.pull C03.toyP C03.toyS [9, 9, 9] 7 c [0x42]).res = .ok 1 ∧
+    (Model.SecretStream.pull C03.toyP C03.toyS [9] 0
+        (c.take (c.length - 16) ++ List.replicate 16 0xff) [0x42]).res = .err :=
+  ⟨_, _, rfl, by decide,
+    stream_tag_tamper_rejected C03.toyP C03.toyS [9, 9, 9] 7 _ [0x42] 1 (by decide)
+      (List.replicate 16 0xff) (by decide) (by decide) [9] 0⟩
+
+/-- non-vacuity witness for `body_tamper_accept_imp_collision` (and the `iff` / rejection forms): the toy
+authenticator (first 16 bytes of the zero-padded message) does collide, on two different 17-byte bodies,
+so all hypotheses including `c' ≠ c` are jointly satisfiable -/
+example : (List.replicate 16 1 ++ [2] : Bytes) ≠ List.replicate 17 1 ∧
+    toyPrims.mac ((toyPrims.stream toyKey toyNonce (32 + 17)).take 32) (List.replicate 17 1)
+      = toyPrims.mac ((toyPrims.stream toyKey toyNonce (32 + 17)).take 32) (List.replicate 16 1 ++ [2]) :=
+  ⟨by decide,
+    body_tamper_accept_imp_collision toyPrims (zeros 17) (zeros 20) (List.replicate 16 1) (List.replicate 17 1)
+      (List.replicate 16 1 ++ [2]) toyNonce toyKey (by decide) (by decide) (by decide)⟩
+
+example : (openDetached toyPrims (zeros 20) (List.replicate 16 1) (List.replicate 16 1 ++ [2]) toyNonce toyKey).res
+    = .ok () :=
+  (body_tamper_accepted_iff_collision toyPrims (zeros 17) (zeros 20) (List.replicate 16 1) (List.replicate 17 1)
+    (List.replicate 16 1 ++ [2]) toyNonce toyKey (by decide) (by decide) (by decide)).2 (by decide)
+
+/-- non-vacuity witness for `body_tamper_rejected_of_no_collision`: flipping the first body byte does not
+collide under the toy authenticator, and is rejected -/
+example : openDetached toyPrims (zeros 3) (toyCt.take 16) [0x5a, 0x58, 0x59] toyNonce toyKey = ⟨.err, zeros 3⟩ :=
+  body_tamper_rejected_of_no_collision toyPrims (zeros 3) (zeros 3) (toyCt.take 16) (toyCt.drop 16)
+    [0x5a, 0x58, 0x59] toyNonce toyKey (by decide) (by decide) (by decide) (by decide)
+
+/-- non-vacuity witness for the `openEasy` / `sealOpen` / object forms (two different bodies, same tag) -/
+example :=
+  body_tamper_accept_imp_collision_openEasy toyPrims (zeros 17) (zeros 17) (List.replicate 33 1)
+    (List.replicate 32 1 ++ [2]) toyNonce toyKey (by decide) (by decide) (by decide) (by decide)
+
+example :=
+  body_tamper_accept_imp_collision_sealOpen toyPrims (zeros 17) (zeros 17) (List.replicate 65 1)
+    (List.replicate 64 1 ++ [2]) toyRpk toyRsk (by decide) (by decide) (by decide) (by decide) (by decide)
+
+example :=
+  body_tamper_accept_imp_collision_objDecrypt toyPrims ⟨none, List.replicate 16 1, List.replicate 17 1⟩
+    ⟨none, List.replicate 16 1, List.replicate 16 1 ++ [2]⟩ toyNonce toyKey _ _ (by decide) (by decide)
+    (by decide : objDecrypt toyPrims _ _ _ = .ok (List.replicate 17 (1 ^^^ 0x5a)))
+    (by decide : objDecrypt toyPrims _ _ _ = .ok (List.replicate 16 (1 ^^^ 0x5a) ++ [2 ^^^ 0x5a]))
+
+/-- non-vacuity witness for the key / nonce flip theorems: the toy authenticator ignores its key, so the
+genuine box is accepted under another key and nonce -/
+example : toyPrims.mac ((toyPrims.stream toyKey toyNonce (32 + 3)).take 32) (toyCt.drop 16)
+    = toyPrims.mac ((toyPrims.stream [1] [2] (32 + 3)).take 32) (toyCt.drop 16) :=
+  key_nonce_flip_accept_imp_tag_eq toyPrims (zeros 3) (zeros 3) (toyCt.take 16) (toyCt.drop 16)
+    toyNonce toyKey [2] [1] (by decide) (by decide)
+
+example :=
+  key_nonce_flip_accept_imp_tag_eq_openEasy toyPrims (zeros 3) (zeros 3) toyCt toyNonce toyKey [2] [1]
+    (by decide) (by decide)
+
+/-- a primitive whose authenticator does depend on the key: the hypothesis `hne` of
+`key_nonce_flip_rejected_of_tag_ne` is satisfiable, and the box sealed under key `[9]` is rejected under `[8]` -/
+example :
+    let P : Prims := { toyPrims with stream := fun k _ l => List.replicate l (k.headD 0),
+                                     mac := fun k m => ((k ++ m) ++ zeros 16).take 16 }
+    ∃ c tag, detached P (zeros 3) toyMsg toyNonce [9] = .ok (c, tag) ∧
+      (openDetached P (zeros 3) tag c toyNonce [9]).res = .ok () ∧
+      openDetached P (zeros 3) tag c toyNonce [8] = ⟨.err, zeros 3⟩ := by
+  intro P
+  exact ⟨_, _, rfl, by decide,
+    key_nonce_flip_rejected_of_tag_ne P (zeros 3) (zeros 3) _ _ toyNonce [9] toyNonce [8]
+      (by decide) (by decide) (by decide)⟩
+
+/-- non-vacuity witness for the `boxPrims` collision theorems: an accepted `(tag, c)` exists for the real
+primitives (`C01.secretbox_detached_roundtrip_concrete`), so the acceptance hypotheses are satisfiable;
+both are instantiated with it (no genuine Poly1305 collision is known — that is the point of stating the
+residue), and `body_change_rejected_of_no_collision_boxPrims` / the `ok_iff` forms are hypothesis-free
+beyond it -/
+example : ∃ tag c, (openDetached Model.boxPrims (zeros 3) tag c (zeros 24) (zeros 32)).res = .ok () ∧
+    Spec.Poly1305.mac (Spec.Salsa20.xsalsa20Stream (zeros 32) (zeros 24) 0 32) c = tag := by
+  obtain ⟨c, tag, -, hc, -, h⟩ :=
+    C01.secretbox_detached_roundtrip_concrete (zeros 32) (zeros 24) toyMsg (zeros 3) (by decide) rfl
+  have h' : (openDetached Model.boxPrims (zeros 3) tag c (zeros 24) (zeros 32)).res = .ok () := by rw [h]
+  have := accept_imp_collision_boxPrims _ _ _ _ _ _ _ h' h'
+  exact ⟨tag, c, h', ((openDetached_ok_iff_boxPrims _ _ _ _ _).1 h').2⟩
 
 end NonVacuity
 
